@@ -23,7 +23,7 @@ from harness import tlc
 from harness.core import Check
 
 TEXT = ["a.md", "/a.md", "d/a.md", "d/", "e/", "/e/", "*.md", "d/*.md", "**/a.md", "d/**", "?.md", "!a.md", "d/e", "e",
-        "!d/a.md", "d/*", "!/a.md", "!e/", "!d/", "!e", "e/a.md", "*/a.md", "!*.md", "**/e/", "!d/e/"]
+        "!d/a.md", "d/*", "!/a.md", "!e/", "!d/", "!e", "e/a.md", "*/a.md", "!*.md", "**/e/", "!d/e/", "!*", "*", "!*/", "*/"]
 FILES = ["a.md", "b.md", "d/a.md", "d/b.md", "d/e/a.md", "d/e/b.md", "e/a.md"]
 GITENV = dict(os.environ, GIT_CONFIG_GLOBAL="/dev/null", GIT_CONFIG_SYSTEM="/dev/null", GIT_CONFIG_NOSYSTEM="1", HOME="/nonexistent")
 _local = threading.local()
@@ -90,11 +90,11 @@ def cli_listing(cfg):
 
 def run(tier: str) -> int:
     chk = Check("C18", tier, "model_checking")
-    chk.rule = ("cases = configurations of spec/Gitignore.tla: all 676 with <= 1 line per .gitignore (root, d/) plus a seeded sample of the "
+    chk.rule = ("cases = configurations of spec/Gitignore.tla: all 900 with <= 1 line per .gitignore (root, d/) plus a seeded sample of the "
                 "the ~424 000 with <= 2 lines (quick 700, thorough 12 000), every (p, q, p) sandwich at the root and seeded three-line configurations; 7 files at depth <= 3; non-trivial = configuration in which git ignores "
                 "at least one file")
     chk.assumptions = ["git on PATH is the oracle (git ls-files -co --exclude-standard in a scratch repository, global/system config disabled)",
-                       "the universe is 7 files x 25 patterns x 2 ignore files; patterns outside it are not covered"]
+                       "the universe is 7 files x 29 patterns x 2 ignore files; patterns outside it are not covered"]
     if not shutil.which("git"):
         raise tlc.TlcError("git is not available")
     N = len(TEXT) + 1
